@@ -12,7 +12,8 @@ A  TLC exhaustive: as-found variant (properties that hold of the code: attempt b
    cancel; Termination under fairness); intended variant (additionally the I_* invariants, CancelLeadsToReturn with lossy
    answers); non-vacuity: the off-by-one instance must violate AttemptBound; the as-found variant must violate every I_*
    invariant and CancelLeadsToReturn (these are the divergences; stage B confirms each of them on the real code).
-B  every complete behaviour of four as-found instances (exhaustive) + simulated behaviours of a larger one are replayed
+B  every complete behaviour of four as-found instances (exhaustive; a fifth, larger one in the thorough tier) + simulated
+   behaviours of a larger one are replayed
    on the real registrars (real net/http server, real DNS responder over loopback UDP): the recorded events must be
    exactly the behaviour.
 C  seeded random scripts (larger alphabet: up to 5 attempts, many status codes, several kinds of garbage) recorded from
@@ -28,7 +29,7 @@ CORE = ["TypeOK", "AttemptBound", "FallbackAtMostOnce", "SecondaryUntouchedWitho
         "AddrFromAccepted", "OverridesOnlyFromAccepted", "PromptAfterCancel", "ApiNoWireAfterCancel",
         "NothingAfterResult", "FallbackOnlyAfterGiveUp"]
 INTENDED = ["I_NoWireAfterCancel", "I_NoFallbackAfterCancel", "I_NoInflightAfterCancel", "I_RegReflectsAccepted",
-            "I_ErrorIndicationRespected", "I_AcceptedHasAddr", "I_FailureIsRegFailed"]
+            "I_ErrorIndicationRespected", "I_AcceptedHasAddr", "I_FailureIsRegFailed", "I_DelayOnceAfterSuccess"]
 
 
 def fmt_ev(e):
@@ -110,6 +111,8 @@ def divergence_tags(b):
                     tags.add("port-of-rejected-response-leaks-into-registration")
             if e["err"] != "none" and e["slept"] > 0:
                 tags.add("connection-delay-slept-after-failure")
+            if e["slept"] == 2:
+                tags.add("connection-delay-slept-twice-after-dns-fallback")
     return tags
 
 
@@ -148,7 +151,7 @@ def run(ctx):
     seen = set()
     counts = {}
     behs = []
-    gens = ["exhA", "exhB", "exhC", "exhD"]
+    gens = ["exhA", "exhB", "exhC", "exhD"] + (["exhE"] if thorough else [])
     with open(beh_all, "w") as fo:
         for g in gens:
             gr = ctx.tlc(sdir, "Gen_ClientRegistrar.tla", "Gen_ClientRegistrar_%s.cfg" % g, timeout=900, workers=8, count=False)
@@ -164,7 +167,7 @@ def run(ctx):
                     behs.append(json.loads(line))
                     n += 1
             counts[g] = n
-        nsim = 6000 if thorough else 700
+        nsim = 8000 if thorough else 1500
         sr = ctx.tlc(sdir, "Gen_ClientRegistrar.tla", "Gen_ClientRegistrar_sim.cfg", timeout=900, workers=4, count=False,
                      simulate="num=%d" % nsim, depth=41, deadlock=False, extra=["-seed", str(ctx.seed)])
         n = 0
@@ -211,7 +214,7 @@ def run(ctx):
             tags[t] = tags.get(t, 0) + 1
     for i in (0, len(behs) // 2, len(behs) - 1):
         ctx.sample({"stage": "B", "behaviour": [fmt_ev(e) for e in behs[i]]})
-    ctx.stage("B", behaviours=summ["behaviours"], steps=summ["steps"], mismatches=summ["mismatches"], retried_for_timing=summ["retried"],
+    ctx.stage("B", behaviours=summ["behaviours"], steps=summ["steps"], mismatches=summ["mismatches"], retried_for_timing=summ["retried"], skipped_after_many_differences=summ["skipped"],
               generated=counts, hangs=summ["hangs"], panics=summ["panics"],
               divergences_confirmed_on_real_code=tags)
     ctx.log("B: %d behaviours / %d steps replayed, %d mismatches (%d retried); divergences exhibited by the real code: %s"
@@ -220,7 +223,7 @@ def run(ctx):
         ctx.notes.append("as-found divergence from the intended behaviour, reproduced on the real code in %d replayed behaviours: %s" % (n, t))
 
     # ---------------------------------------------------------------- C
-    ntr = 3000 if thorough else 500
+    ntr = 4000 if thorough else 800
 
     def record(only=None):
         trp = os.path.join(ctx.scratch, "clientreg_traces%s.ndjson" % ("" if only is None else "_%d" % only))
@@ -253,7 +256,7 @@ def run(ctx):
 
     ok, reached, total, tr = ctx.validate_traces(sdir, "Trace_ClientRegistrar.tla", "Trace_ClientRegistrar.cfg", traces, timeout=900)
     retried = 0
-    while not ok and retried < 3:
+    while not ok and retried < 6:
         ti, ei = locate(reached)
         ctx.log("C: trace %d rejected at event %d (%s); recording that script once more, alone" % (ti, ei, fmt_ev(traces[ti][ei]) if 0 <= ei < len(traces[ti]) else "?"))
         first = traces[ti]
@@ -327,7 +330,7 @@ def run(ctx):
         "the caller cancels before the call, while a request is in flight, or inside the opaque secondary; cancellation between two "
         "attempts is observationally the same as cancellation during the failing attempt before it and is not scripted separately; "
         "cancellation during the final connection-delay sleep is not scripted",
-        "timing-derived fields (Return.slept with connectionDelay = 150 ms, Cancel.aborted = a failure is logged within 60 ms) are "
+        "timing-derived fields (Return.slept with connectionDelay = 150 ms, Cancel.aborted = a failure is logged within 60 ms (stage B) / 150 ms (stage C)) are "
         "re-measured once, alone, before a difference is reported",
         "failed attempts are observed through the registrar's own logger (first Warn entry per attempt label)",
         "the returned registration is observed through ConjureReg.Connect with a recording dialer and the transport's session parameters; "
